@@ -2,6 +2,7 @@
 # tools/mergeprop.sh Cxx — merge a builder's branches: wip-Cxx into /verif main, fix-Cxx commits into /repo main,
 # regenerate the generated files, run the check on /repo itself.
 P=$1
+if [ -z "$MERGE_LOCKED" ]; then MERGE_LOCKED=1 exec flock /root/work/repo.lock env MERGE_LOCKED=1 "$0" "$@"; fi
 cd /verif || exit 2
 if ! git diff --quiet || ! git diff --cached --quiet; then echo "/verif has uncommitted changes"; exit 2; fi
 echo "== fix commits"
